@@ -3,6 +3,7 @@ package main
 
 import (
 	"bytes"
+	"math"
 	"math/rand"
 	"strconv"
 	"strings"
@@ -15,7 +16,8 @@ type opd struct {
 	Op  string `json:"op"` // add | addnv | set | setnv | del | reset | parse
 	K   hlib.B `json:"k,omitempty"`
 	V   hlib.B `json:"v,omitempty"` // value, or the raw query string for parse
-	Via int    `json:"via,omitempty"` // which API variant (string / []byte flavours)
+	N   int    `json:"n,omitempty"`   // setuint: the value
+	Via int    `json:"via,omitempty"` // which API variants (string / []byte flavours, which serialiser, which iterator ...)
 }
 
 type desc struct {
@@ -23,6 +25,7 @@ type desc struct {
 	Ops   []opd    `json:"ops,omitempty"`
 	Probe []hlib.B `json:"probe,omitempty"`
 	Raw   hlib.B   `json:"raw,omitempty"`
+	Pool  bool     `json:"pool,omitempty"` // take the Args objects from AcquireArgs (stale slots of earlier cases) and release them
 }
 
 // ---- dictionaries -----------------------------------------------------------
@@ -38,6 +41,7 @@ var valDict = [][]byte{
 	nil, []byte(""), []byte("1"), []byte("%41"), []byte("%zz"), []byte("%"), []byte("%4"), []byte("a b"), []byte("a+b"), []byte("a&b"),
 	[]byte("a=b"), []byte("=="), []byte("&&"), []byte("%25"), []byte("%2B"), []byte("+"), []byte(" "), []byte("\x00"), []byte("\xff\xfe"),
 	[]byte("x;y"), []byte("%%%"), []byte("100%"), []byte("%G0"), []byte("%0g"), []byte("%aF"),
+	[]byte("0"), []byte("42"), []byte("007"), []byte("1.5"), []byte("true"), []byte("Yes"), []byte("t"), []byte("9223372036854775808"), []byte("1e3"), []byte(".5"),
 }
 
 var rawAlpha = []byte("ab=&=&+%%41zg;A \x00\x80\xffF0")
@@ -126,7 +130,7 @@ func genSeq(r *rand.Rand, maxLen int, nkeys int) desc {
 	ops := make([]opd, n)
 	for i := range ops {
 		k := append([]byte{}, hlib.Pick(r, keys)...)
-		via := r.Intn(4)
+		via := r.Intn(60)
 		switch x := r.Intn(100); {
 		case x < 30:
 			ops[i] = opd{Op: "add", K: k, V: pickVal(r), Via: via}
@@ -136,15 +140,19 @@ func genSeq(r *rand.Rand, maxLen int, nkeys int) desc {
 			ops[i] = opd{Op: "setnv", K: k, Via: via}
 		case x < 70:
 			ops[i] = opd{Op: "addnv", K: k, Via: via}
-		case x < 85:
+		case x < 83:
 			ops[i] = opd{Op: "del", K: k, Via: via}
-		case x < 88:
+		case x < 86:
 			ops[i] = opd{Op: "reset", Via: via}
+		case x < 89:
+			ops[i] = opd{Op: "setuint", K: k, N: []int{0, 7, 42, 1000000, 9223372036854775807}[r.Intn(5)], Via: via}
+		case x < 91:
+			ops[i] = opd{Op: "selfparse", Via: via}
 		default:
 			ops[i] = opd{Op: "parse", V: pickRaw(r, keys), Via: via}
 		}
 	}
-	return desc{Kind: "seq", Ops: ops, Probe: probeOf(keys)}
+	return desc{Kind: "seq", Ops: ops, Probe: probeOf(keys), Pool: r.Intn(2) == 0}
 }
 
 func bs(s string) hlib.B { return hlib.B(s) }
@@ -180,9 +188,25 @@ func corpus() []desc {
 			{Op: "addnv", K: bs("c")}, {Op: "add", K: bs("d"), V: bs("")}, {Op: "reset"}, {Op: "addnv", K: bs("e")}, {Op: "parse", V: bs("f&g=")}},
 		{{Op: "add", K: bs("k"), V: bs("&=+% ;\x00\x80\xff")}, {Op: "add", K: bs("&=+% ;"), V: bs("%41%zz%")}, {Op: "set", K: bs("k"), V: bs("+")}},
 	}
-	for _, ops := range dir {
+	// the other entry points: CopyTo into a longer / shorter / stale third Args (via%4==1), WriteTo (via%5==3), AppendBytes onto a prefix
+	// (via%5==4), the []byte getters ((via/2)%2==1), VisitAll (odd via), SetUint/SetUintBytes + GetUint/GetBool/GetUfloat, parsing the
+	// object's own QueryString() in place, pooled objects
+	dir2 := [][]opd{
+		{{Op: "add", K: bs("a"), V: bs("1"), Via: 1}, {Op: "add", K: bs("b"), V: bs("2"), Via: 13}, {Op: "addnv", K: bs("k"), Via: 9}, {Op: "add", K: bs("a"), V: bs("true"), Via: 5},
+			{Op: "del", K: bs("a"), Via: 1}, {Op: "reset", Via: 1}, {Op: "addnv", K: bs("b"), Via: 1}, {Op: "setnv", K: bs("b"), Via: 17}, {Op: "set", K: bs("b"), V: bs("x"), Via: 21},
+			{Op: "parse", V: bs("a&b=&k=%41&&=&a=3"), Via: 25}, {Op: "del", K: bs("a"), Via: 29}},
+		{{Op: "setuint", K: bs("a"), N: 42, Via: 3}, {Op: "setuint", K: bs("a"), N: 0, Via: 14}, {Op: "add", K: bs("b"), V: bs("007"), Via: 6},
+			{Op: "setuint", K: bs("k"), N: 9223372036854775807, Via: 7}, {Op: "add", K: bs("k"), V: bs("9223372036854775808"), Via: 2}, {Op: "set", K: bs("b"), V: bs("1.5"), Via: 10},
+			{Op: "set", K: bs("a"), V: bs("Yes"), Via: 11}, {Op: "set", K: bs(""), V: bs("t"), Via: 3}, {Op: "setnv", K: bs("a"), Via: 14}},
+		{{Op: "add", K: bs("a"), V: bs("x y")}, {Op: "addnv", K: bs("")}, {Op: "add", K: bs(""), V: bs("")}, {Op: "add", K: bs("b"), V: bs("&=")}, {Op: "selfparse", Via: 0},
+			{Op: "add", K: bs("k"), V: bs("%41")}, {Op: "selfparse", Via: 1}, {Op: "selfparse", Via: 4}, {Op: "reset"}, {Op: "selfparse", Via: 9}},
+	}
+	for i, ops := range append(dir, dir2...) {
 		keys := [][]byte{[]byte("a"), []byte("b"), []byte(""), []byte("k")}
 		c = append(c, desc{Kind: "seq", Ops: ops, Probe: probeOf(keys)})
+		if i >= len(dir) || i%3 == 0 {
+			c = append(c, desc{Kind: "seq", Ops: ops, Probe: probeOf(keys), Pool: true})
+		}
 	}
 	return c
 }
@@ -224,7 +248,7 @@ func apply(a *fasthttp.Args, o opd) string {
 	k, v := []byte(o.K), []byte(o.V)
 	switch o.Op {
 	case "add":
-		switch o.Via {
+		switch o.Via % 4 {
 		case 0:
 			a.Add(string(k), string(v))
 		case 1:
@@ -243,7 +267,7 @@ func apply(a *fasthttp.Args, o opd) string {
 		}
 		return hlib.App("OAddNoValue", lit(k))
 	case "set":
-		switch o.Via {
+		switch o.Via % 4 {
 		case 0:
 			a.Set(string(k), string(v))
 		case 1:
@@ -268,6 +292,23 @@ func apply(a *fasthttp.Args, o opd) string {
 			a.DelBytes(k)
 		}
 		return hlib.App("ODel", lit(k))
+	case "setuint": // SetUint = SetBytesV(key, AppendUint(n)); the model op is Set with the decimal digits
+		if o.Via%2 == 0 {
+			a.SetUint(string(k), o.N)
+		} else {
+			a.SetUintBytes(k, o.N)
+		}
+		return hlib.App("OSet", lit(k), lit([]byte(strconv.Itoa(o.N))))
+	case "selfparse": // parse the object's own serialisation in place (a.buf is both source and scratch)
+		var qs []byte
+		if o.Via%2 == 0 {
+			qs = append(qs, a.QueryString()...)
+			a.ParseBytes(a.QueryString())
+		} else {
+			qs = []byte(a.String())
+			a.Parse(a.String())
+		}
+		return hlib.App("OParse", lit(qs))
 	case "reset":
 		a.Reset()
 		return "OReset"
@@ -308,31 +349,101 @@ func optBytes(b []byte) string {
 	return hlib.Some(lit(b))
 }
 
-func observe(a, b *fasthttp.Args, probe []hlib.B, via int) string {
+var boolTrue = map[string]bool{"1": true, "t": true, "T": true, "true": true, "TRUE": true, "True": true, "y": true, "yes": true, "Y": true, "YES": true, "Yes": true}
+
+// helpersOK checks, on the Go side, the convenience getters against their definition in terms of Peek:
+// GetUint/GetUintOrZero = ParseUint(Peek) (ErrNoArgValue when empty), GetUfloat/GetUfloatOrZero = ParseUfloat(Peek),
+// GetBool = membership in the documented literal set; and that All() stops when the loop body breaks.
+func helpersOK(a *fasthttp.Args, probe []hlib.B, via int) bool {
+	for _, k := range probe {
+		pv := a.Peek(string(k))
+		n, err := a.GetUint(string(k))
+		f, ferr := a.GetUfloat(string(k))
+		if len(pv) == 0 {
+			if n != -1 || err != fasthttp.ErrNoArgValue || f != -1 || ferr != fasthttp.ErrNoArgValue {
+				return false
+			}
+		} else {
+			wn, werr := fasthttp.ParseUint(pv)
+			if n != wn || (err == nil) != (werr == nil) {
+				return false
+			}
+			wf, wferr := fasthttp.ParseUfloat(pv)
+			if (ferr == nil) != (wferr == nil) || (ferr == nil && math.Float64bits(f) != math.Float64bits(wf)) {
+				return false
+			}
+		}
+		z := a.GetUintOrZero(string(k))
+		if (err == nil && z != n) || (err != nil && z != 0) {
+			return false
+		}
+		fz := a.GetUfloatOrZero(string(k))
+		if (ferr == nil && math.Float64bits(fz) != math.Float64bits(f)) || (ferr != nil && fz != 0) {
+			return false
+		}
+		if a.GetBool(string(k)) != boolTrue[string(pv)] {
+			return false
+		}
+	}
+	if m := via % 3; m > 0 {
+		i := 0
+		for range a.All() {
+			i++
+			if i == m {
+				break
+			}
+		}
+		want := m
+		if a.Len() < m {
+			want = a.Len()
+		}
+		if i != want {
+			return false
+		}
+	}
+	return true
+}
+
+func observe(a, b, c *fasthttp.Args, probe []hlib.B, via int) string {
 	var all []string
-	for k, v := range a.All() {
-		all = append(all, hlib.Tuple(lit(k), lit(v)))
+	if via%2 == 0 {
+		for k, v := range a.All() {
+			all = append(all, hlib.Tuple(lit(k), lit(v)))
+		}
+	} else {
+		a.VisitAll(func(k, v []byte) { all = append(all, hlib.Tuple(lit(k), lit(v))) })
 	}
 	nov := fasthttp.VerifArgsNoValue(a)
 	novs := make([]string, len(nov))
 	for i, f := range nov {
 		novs[i] = hlib.Bool(f)
 	}
-	var qs []byte
-	switch via % 3 {
+	var pre, out []byte
+	switch via % 5 {
 	case 0:
-		qs = append(qs, a.QueryString()...)
+		out = append(out, a.QueryString()...)
 	case 1:
-		qs = []byte(a.String())
+		out = []byte(a.String())
+	case 2:
+		out = a.AppendBytes(nil)
+	case 3:
+		var buf bytes.Buffer
+		n, err := a.WriteTo(&buf)
+		if err != nil || int(n) != buf.Len() {
+			panic("WriteTo result")
+		}
+		out = append(out, buf.Bytes()...)
 	default:
-		qs = a.AppendBytes(nil)
+		pre = []byte("p=%7E&")
+		out = a.AppendBytes(append(make([]byte, 0, 64), pre...))
 	}
+	bytesAPI := (via/2)%2 == 1
 	var pr []string
 	for _, k := range probe {
 		var pk []byte
 		var pm [][]byte
 		var has bool
-		if via%2 == 0 {
+		if !bytesAPI {
 			pk, pm, has = a.Peek(string(k)), a.PeekMulti(string(k)), a.Has(string(k))
 		} else {
 			pk, pm, has = a.PeekBytes(k), a.PeekMultiBytes(k), a.HasBytes(k)
@@ -340,15 +451,27 @@ func observe(a, b *fasthttp.Args, probe []hlib.B, via int) string {
 		pr = append(pr, hlib.Tuple(optBytes(pk), litList(pm), hlib.Bool(has)))
 	}
 	// round trip into a second, long-lived Args (so that its slots are reused with stale contents)
-	b.ParseBytes(append([]byte{}, qs...))
-	return hlib.App("Obs", hlib.Z(int64(a.Len())), hlib.List(all), hlib.List(novs), lit(qs), hlib.List(pr), entriesOf(b))
+	b.ParseBytes(append([]byte{}, a.QueryString()...))
+	rt := entriesOf(b)
+	// CopyTo into a third long-lived Args (larger or smaller than a, with stale slots), on a quarter of the steps
+	cp := hlib.None()
+	if via%4 == 1 {
+		a.CopyTo(c)
+		cp = hlib.Some(entriesOf(c))
+	}
+	return hlib.App("Obs", hlib.Z(int64(a.Len())), hlib.List(all), hlib.List(novs), lit(pre), lit(out), hlib.Bool(bytesAPI), hlib.List(pr), rt, cp,
+		hlib.Bool(helpersOK(a, probe, via)))
 }
 
 func run(d desc) hlib.Case {
 	c := hlib.Case{Kind: d.Kind}
 	switch d.Kind {
 	case "seq":
-		a, b := &fasthttp.Args{}, &fasthttp.Args{}
+		a, b, c3 := &fasthttp.Args{}, &fasthttp.Args{}, &fasthttp.Args{}
+		if d.Pool {
+			a, b, c3 = fasthttp.AcquireArgs(), fasthttp.AcquireArgs(), fasthttp.AcquireArgs()
+			defer func() { fasthttp.ReleaseArgs(a); fasthttp.ReleaseArgs(b); fasthttp.ReleaseArgs(c3) }()
+		}
 		var steps []string
 		var sig strings.Builder
 		size := 0
@@ -358,7 +481,7 @@ func run(d desc) hlib.Case {
 				before = 2
 			}
 			opTerm := apply(a, o)
-			steps = append(steps, hlib.Tuple(opTerm, observe(a, b, d.Probe, o.Via)))
+			steps = append(steps, hlib.Tuple(opTerm, observe(a, b, c3, d.Probe, o.Via)))
 			sig.WriteString(o.Op[:1] + o.Op[len(o.Op)-1:] + strconv.Itoa(before))
 			size += len(o.K) + len(o.V)
 		}
@@ -399,7 +522,7 @@ func main() {
 		Rule: "corpus: malformed/edge query strings, a 0..255 byte sweep (each byte as key, inside a key, as value, raw and inside an escape), directed sequences " +
 			"(duplicates+Set, Del, both-empty entries in every position, slot reuse after Del/Reset/Parse); then seeded random operation sequences (Add/Set/SetNoValue/AddNoValue/Del/Reset/Parse, " +
 			"all string/[]byte API variants) of length <= 30 over 4 keys drawn from a dictionary of awkward keys, values rich in & = + % ; space NUL 0x80+ and (malformed) escapes, " +
-			"all getters recorded after every operation plus ParseBytes(QueryString()) into a second reused Args; and raw query strings. Beyond case 2000 sequences grow to 110 ops over up to 8 keys. " +
+			"SetUint(Bytes) and in-place re-parse of the own QueryString(); after every operation all getters (string or []byte variants, All or VisitAll) are recorded, the serialisation through QueryString/String/AppendBytes(nil or prefix)/WriteTo, ParseBytes(QueryString()) into a second reused Args, on a quarter of the steps CopyTo into a third reused Args, GetUint/GetUfloat/GetBool checked against Peek; half of the sequences run on pooled (AcquireArgs) objects; and raw query strings. Beyond case 2000 sequences grow to 110 ops over up to 8 keys. " +
 			"Non-trivial = distinct (operation, number of existing entries with that key) trace or distinct raw-parse class",
 		Corpus:   corpus,
 		Gen:      gen,
